@@ -492,7 +492,7 @@ impl Prop for C17 {
     fn plan(&self, tier: Tier) -> Plan {
         let mut p = Plan::new(match tier {
             Tier::Quick => 20000,
-            Tier::Thorough => 100_000,
+            Tier::Thorough => 300_000,
         });
         p.workers = 8;
         p
